@@ -201,6 +201,42 @@ def param_kinds(spec, n, d):
     return out
 
 
+def param_roles(spec, n, d):
+    """per hyper-parameter, by the documented layouts: 'amp' (log amplitude), 'alpha', 'scale' (log length-scale), 'noise' (log noise
+    level), 'loc' / 'width' (change-point location / width, in the units of the coordinates)"""
+    k = spec["k"]
+    if k == "SE":
+        return ["amp"] + ["scale"] * d
+    if k == "RQ":
+        return ["amp", "alpha"] + ["scale"] * d
+    if k == "White":
+        return ["noise"]
+    if k == "Hetero":
+        return ["noise"] * n
+    out = []
+    for p in spec["parts"]:
+        out.extend(param_roles(p, n, d))
+    if k == "CP":
+        for _ in range(len(spec["parts"]) - 1):
+            out.extend(["loc", "width"])
+    return out
+
+
+def move_theta(theta, roles, step=1.0, shift=0.0, ystep=1.0):
+    """hyper-parameters drawn for coordinates x and data y, moved to coordinates (x + shift) * step and data y * ystep"""
+    out = np.array(theta, dtype=float)
+    for j, r in enumerate(roles):
+        if r == "scale":
+            out[j] += math.log(step)
+        elif r in ("amp", "noise"):
+            out[j] += math.log(ystep)
+        elif r == "loc":
+            out[j] = (out[j] + shift) * step
+        elif r == "width":
+            out[j] *= step
+    return out
+
+
 def describe(spec):
     k = spec["k"]
     if k in ("Sum", "CP"):
